@@ -60,10 +60,12 @@ type Axiom struct {
 type Ghost struct {
 	Stable  bool
 	FsState bool
-	Name    string
-	Sort    string
-	Init    string // SMT text or "" (fresh at entry)
-	Tags    []string
+	// ResetOnLock: a Bool ghost that every mutex acquisition by the code under proof sets to false
+	ResetOnLock bool
+	Name        string
+	Sort        string
+	Init        string // SMT text or "" (fresh at entry)
+	Tags        []string
 }
 
 type GuardDecl struct {
@@ -501,6 +503,10 @@ func (lib *SpecLib) parseLines(lines []rawLine, pkgPath string, isSpec bool) err
 			}
 			g.Name = def[:i]
 			srt := strings.TrimSpace(def[i+1:])
+			if strings.HasSuffix(srt, " resetonlock") {
+				g.ResetOnLock = true
+				srt = strings.TrimSuffix(srt, " resetonlock")
+			}
 			if strings.HasSuffix(srt, " stable") {
 				// only contracts that name it in modifies/sets change it (objects it describes never escape to callees)
 				g.Stable = true
